@@ -334,32 +334,36 @@ def oracle(case, result):
         shown.setdefault(tuple(None if x is SUB else x for x in key), []).append((key, grows))
     if len(result) != len(groups):
         return (f'{site}:row-count', f'{len(result)} rows for {len(groups)} distinct key combinations; case={case}')
-    pending = {k: list(v) for k, v in shown.items()}
-    # pass 1: rows that match a group exactly; pass 2: what is left is judged against the remaining group(s)
-    left = []
+    by_key = {}
     for r in result:
-        key = tuple(r[:nk])
-        cands = pending.get(key)
-        if not cands:
-            return (f'{site}:unexpected-key', f'row with key {key} not expected (or too many of them); case={case}')
-        for idx, (mkey, grows) in enumerate(cands):
-            if _check_cells(site, mode, case, r, mkey, grows, pvs) is None:
-                del cands[idx]
+        by_key.setdefault(tuple(r[:nk]), []).append(r)
+    for key, rs in by_key.items():
+        cands = shown.get(key)
+        if not cands or len(cands) != len(rs):
+            return (f'{site}:unexpected-key', f'{len(rs)} rows with key {key}, expected {len(cands or [])}; case={case}')
+    # a subtotal position shows as null, like a null key: rows with the same shown key are matched to the marked keys
+    # by their cells (best assignment; at most 4 candidates per shown key)
+    for key, rs in by_key.items():
+        cands = shown[key]
+        best = None
+        for perm in itertools.permutations(range(len(cands))):
+            fails = [f for f in (_check_cells(site, mode, case, r, cands[j][0], cands[j][1], pvs)
+                                 for r, j in zip(rs, perm)) if f is not None]
+            if not fails:
+                best = []
                 break
-        else:
-            left.append(r)
-    for r in left:
-        cands = pending.get(tuple(r[:nk]))
-        if not cands:
-            return (f'{site}:unexpected-key', f'row {r} matches no remaining group; case={case}')
-        mkey, grows = cands.pop(0)
-        return _check_cells(site, mode, case, r, mkey, grows, pvs)
+            score = (len(fails), sum(1 for f in fails if not f[0].startswith('pivot.agg:last:')))
+            if best is None or score < best[0]:
+                best = (score, fails)
+        if best:
+            return best[1][0]
     return None
 
 
 def last_defect_applies(case, mkey, grows, pv, got):
-    """Known finding: Last.mergeStats (ignore_nulls=False) overwrites its value with the initial None of a partial
-    that saw no row.  Such partials only exist under pivot (a slot of a group that has rows for other pivot values)."""
+    """The finding of this check, repaired in /repo by cee87a5 (kept as a specific signature): Last.mergeStats
+    (ignore_nulls=False) overwrote its value with the initial None of a partial that saw no row.  Such partials only
+    exist under pivot (a slot of a group that has rows for other pivot values)."""
     _, keycols, pivot, _, parts = case
     if pivot is None or got is not None:
         return False
@@ -470,6 +474,18 @@ def modes(rng):
     return out
 
 
+def load_corpus():
+    import glob
+    import json
+    import os
+    from common.coqlit import uncanon
+    root = os.path.join(os.environ.get('VERIF_ROOT', '/verif'), 'corpus', 'C14')
+    out = []
+    for path in sorted(glob.glob(os.path.join(root, '*.json'))):
+        out.append(uncanon(json.load(open(path))['case']))
+    return out
+
+
 def generate(rng, tier):
     quick = tier == 'quick'
     cases = []
@@ -489,11 +505,12 @@ def generate(rng, tier):
         ('summary', [], None, [], []),
     ]
     cases.extend(seeds)
+    cases.extend(load_corpus())
 
     # (1) exhaustive assignments to <= 3 partitions: tables of 1..4 rows (3^n assignments each, all of them),
     #     with all aggregates together, cycling through the modes
-    n_tables = {1: 2, 2: 3, 3: 3, 4: 2 if quick else 6}
-    mi = 0
+    n_tables = {1: 2, 2: 3, 3: 4, 4: 4 if quick else 12}
+    mi = rng.randrange(len(mds))
     for n, cnt in n_tables.items():
         for _ in range(cnt):
             rows = gen_table(rng, n)
@@ -502,30 +519,27 @@ def generate(rng, tier):
             aggs = everything[mi % len(everything)]
             for p in (1, 2, 3):
                 for assign in all_assignments(n, p):
-                    if p > 1 and max(assign) < p - 1 and rng.random() < 0.5:
-                        continue   # same as a smaller p plus trailing empty partitions: keep half of them
                     cases.append((md[0], md[1], md[2], aggs, split(rows, assign, p)))
     # (2) tables of 5 and 6 rows: all 3^n assignments in the thorough tier, a sample in the quick tier
     for n in (5, 6):
-        for _ in range(1 if quick else 3):
+        for _ in range(2 if quick else 12):
             rows = gen_table(rng, n)
             md = mds[mi % len(mds)]
             mi += 1
             aggs = everything[mi % len(everything)]
             allas = list(all_assignments(n, 3))
             if quick:
-                allas = rng.sample(allas, 60)
+                allas = rng.sample(allas, 120)
             for assign in allas:
                 cases.append((md[0], md[1], md[2], aggs, split(rows, assign, 3)))
     # (3) every aggregate alone and in pairs x every mode, random tables, random assignment to <= 6 partitions
     combos = [(a, m) for a in singles for m in mds]
     pair_combos = [(a, mds[i % len(mds)]) for i, a in enumerate(pairs)]
     if quick:
-        combos = rng.sample(combos, 260)
-        pair_combos = pair_combos[:190]
+        combos = rng.sample(combos, 420)
     else:
-        combos = combos * 3
-        pair_combos = pair_combos * 4
+        combos = combos * 10
+        pair_combos = [(a, mds[(i + j) % len(mds)]) for j in range(16) for i, a in enumerate(pairs)]
     for aggs, md in combos + pair_combos:
         n = rng.randint(1, 6)
         rows = gen_table(rng, n)
@@ -535,7 +549,7 @@ def generate(rng, tier):
         if rng.random() < 0.5:
             cases.append((md[0], md[1], md[2], aggs, [rows]))    # the single-partition reference
     # (4) describe / summary
-    for _ in range(40 if quick else 400):
+    for _ in range(80 if quick else 1200):
         n = rng.randint(0, 6)
         rows = gen_table(rng, n)
         p = rng.randint(1, 5)
